@@ -403,6 +403,17 @@ class Count(Hooks):
                                             P.__dict__.get('_c14_solves', 0) - CALLS['solves'][a]))
 
 
+class BetweenSteps(Hooks):
+    """work done on the problem BETWEEN two steps (as a hook that computes a reference solution through the problem's own right-hand side does): it belongs to
+    no step; registered after the independent counter, so it lies outside the counted window"""
+
+    def post_step(self, step, level_number):
+        super().post_step(step, level_number)
+        L = step.levels[0]
+        L.prob.eval_f(L.uend, L.time + L.dt)
+        L.prob.eval_f(L.uend, L.time + L.dt)
+
+
 class SetEst(Hooks):
     """gives the level an (arbitrary, non-zero) embedded error estimate so that the shipped estimate hooks have something to record"""
 
@@ -454,7 +465,7 @@ def hist_case(rep, NP, MAXR, NSTEPS, FIRST, CRASH, prefix, shrink=False):
         CALLS.clear()
         CALLS.update({'add': [], 'iters': {}, 'work': {}, 'post': [], 'attempt': 0, 'sweeps': [], 'solves': {}})
         r = c09.hist_run(c, NP, MAXR, NSTEPS, FIRST, CRASH, extra_hooks=[SetEst, LogEmbeddedErrorEstimatePostIter, LogWork, LogSDCIterations, LogSolution, LogStepSize, LogGlobalErrorPostStep,
-                                                                           LogLocalErrorPostStep, LogEmbeddedErrorEstimate, LogGlobalErrorPostIter, LogLocalErrorPostIter, LogGlobalErrorPostRun, LogExtrapolationErrorEstimate, Count], shrink=opts)
+                                                                           LogLocalErrorPostStep, LogEmbeddedErrorEstimate, LogGlobalErrorPostIter, LogLocalErrorPostIter, LogGlobalErrorPostRun, LogExtrapolationErrorEstimate, Count, BetweenSteps], shrink=opts)
         bad = []
         if r['status'] == 'ok':
             bad = judge_stats(r, NP)
